@@ -11,6 +11,7 @@
                 backward_shift_keeps_chains, evict_exactly_min_others,
                 cas_only_on_identity, compare_delete_only_on_identity,
                 insert_never_evicts_own_key, capacity_respected_sequentially,
+                overshoot_heals_sequentially, spill_loop_tie,
                 segment_len_is_reachable, clear_resets, count_eq_entries_at_quiescence,
                 no_nested_locks, gen_grow_len_pow2_tie
                 occupancy_bound (every schedule: entries <= capacity + calls in
@@ -139,6 +140,20 @@ Theorem capacity_respected_sequentially : forall (mix : N -> N) (sidx : nat -> N
   (sm_count (sm_set_with_cap mix sidx eoff m k v cap) <= cap)%Z.
 Proof. exact swc_within_capacity. Qed.
 Print Assumptions capacity_respected_sequentially.
+
+(* 9b'. Over capacity — however that came about (the overlap race of finding
+        swc-sparse-scan-race, a capacity lowered at run time) — calls that run to
+        completion heal it: every SetWithCap / Cache.Add takes the counter down by at
+        least one until it is within the capacity, where it stays (9b is the case
+        sm_count m <= cap).  In particular the first round of the spill loop never
+        ends empty-handed over capacity when nothing else runs, so the sequential
+        model is the same for both spill loops. *)
+Theorem overshoot_heals_sequentially : forall (mix : N -> N) (sidx : nat -> N -> nat) (eoff : N -> Z),
+  (forall n k, 0 < n -> sidx n k < n) ->
+  forall m k v cap, SWF mix sidx m -> (1 <= cap)%Z ->
+  (sm_count (sm_set_with_cap mix sidx eoff m k v cap) <= Z.max cap (sm_count m - 1))%Z.
+Proof. exact swc_heals. Qed.
+Print Assumptions overshoot_heals_sequentially.
 
 (* 9c. Clear empties the map and the counter. *)
 Theorem clear_resets : forall (mix : N -> N) (sidx : nat -> N -> nat),
@@ -302,6 +317,11 @@ Proof.
   - destruct occ_witness as [_ [B [C [_ [_ D]]]]]. cbv zeta. auto.
   - destruct occ_witness_rescan as [_ [_ [C _]]]. exact C.
 Qed.
+(* the over-capacity state the race leaves behind (2 entries, capacity 1) heals with the next Add *)
+Example ex_heal :
+  let m := c_map (c_run (init (new_segmap 4 0) occ_progs) occ_sched) in
+  sm_count m = 2%Z /\ sm_count (sm_set_with_cap go_mix go_sidx go_eoff m 99 9 1) = 1%Z.
+Proof. vm_compute. split; reflexivity. Qed.
 Example ex_swf : SWF go_mix go_sidx (sm_set go_mix go_sidx (new_segmap 4 0) 5 1).
 Proof.
   exact (proj1 (sm_set_spec go_mix go_sidx go_sidx_lt (new_segmap 4 0) 5%N 1%N
